@@ -290,7 +290,22 @@ func c09Exec(run *ev.Run, c ev.Case) {
 
 // c09Call returns the library call for a command kind plus its ok body and the
 // response layer's minimum body length.
+// c09Observe looks at a session the way logging and debugging code does (formatting it, reading its
+// keys and counters): observing a session sends nothing and therefore costs no sequence number.
+func c09Observe(sess *bmc.V2Session) {
+	if sess == nil {
+		return
+	}
+	for i := 0; i < 3; i++ {
+		_ = sess.String()
+		_ = fmt.Sprintf("%v %+v %s", sess, sess.AuthenticatedSequenceNumbers, sess.Version())
+		_ = sess.K(1)
+		_ = sess.ID()
+	}
+}
+
 func c09Call(kind string, sess *bmc.V2Session, st *bmc.V2SessionlessTransport) (call func(ctx context.Context) (ipmi.CompletionCode, error), okBody []byte, minBody int) {
+	c09Observe(sess)
 	switch kind {
 	case "devid":
 		cmd := &ipmi.GetDeviceIDCmd{}
